@@ -53,6 +53,7 @@ Definition eval_atom (c : reqctx) (a : gatom) : bool :=
   | AMethodNe m => negb (String.eqb (rc_method c) m)
   | AIsMutation => rc_ismut c
   | AVersioned => rc_versioned c
+  | AUnknown _ => false
   end.
 
 (* does the refusal condition of selector / handler [name] hold?  A function without a recorded
